@@ -76,6 +76,11 @@ theorem inv_env (s s' : St) (a : Act) (ha : a.isEnv = true) (hi : Inv s) (h : st
     split at h
     · simp at h; subst h; conc_close
     · simp at h
+  case envDeadline sid =>
+    simp only [step, E, Choreo.expected, Bool.true_or, ite_true] at h
+    split at h
+    · simp at h; subst h; conc_close
+    · simp at h
   case envStart i =>
     simp only [step] at h
     split at h
